@@ -365,6 +365,21 @@ def oracle_entry_points(impl, text):
         if kind == "proxy" and m.opt.proxy_uri != m2.opt.proxy_uri:
             return "entry points differ on %r: Proxy-Uri %r, %s %r" % (
                 text, m.opt.proxy_uri, how, m2.opt.proxy_uri)
+    # `set_uri_host=False` only says where the host goes (into the remote alone): what is a malformed or incomplete
+    # URI does not depend on it, and the remote, path and query are the same
+    m3 = impl.new()
+    try:
+        m3.set_request_uri(text, set_uri_host=False)
+        kind3 = "proxy" if m3.opt.proxy_uri is not None else "ok"
+    except Exception as e:
+        kind3 = "err:" + type(e).__name__
+    if kind3 != kind:
+        return "entry points differ on %r: set_request_uri %s, with set_uri_host=False %s" % (text, kind, kind3)
+    if kind == "ok":
+        a, b = impl.observe(m), impl.observe(m3)
+        a.pop("uri_host"); b.pop("uri_host")
+        if a != b:
+            return "entry points differ on %r: set_request_uri %r, with set_uri_host=False %r" % (text, a, b)
     return ""
 
 
